@@ -291,6 +291,10 @@ def eval_arg(arg_text, extra_ns=None):
 # ---------------------------------------------------------------------- hand-rendered previous content
 
 
+DEFAULT_TEXT = {"DC": {"b": "None", "c": "[]"}, "DCD": {"x": "0", "y": "'y'"}, "DCN": {"t": "'t'"}, "AT": {"q": "3", "r": "[]"}, "PM": {"n": "1", "o": "[]"},
+                "NTD": {"g": "5", "h": "'h'"}, "Outer.IDC": {"v": "0"}}
+
+
 def hand_render(v, rng, fancy=0.3):
     """'arbitrary but valid' source text for a value: other quotes, trailing commas, multi-line
     layouts with comments, arithmetic spellings of ints, implicit string concatenation."""
@@ -329,6 +333,15 @@ def hand_render(v, rng, fancy=0.3):
         return "{" + ", ".join(items) + "}"
     if t == "dc":
         items = [f"{k}={hand_render(x, rng, fancy)}" for k, x in v[2]]
+        if r() < fancy:
+            # default values written out explicitly (the tool would leave them out: an 'update' deletes them)
+            given = {k for k, _ in v[2]}
+            order = V.CALL_TYPES.get(v[1], [])
+            for k, dv in DEFAULT_TEXT.get(v[1], {}).items():
+                if k not in given and r() < 0.6:
+                    pos = sum(1 for k2, _ in v[2] if order.index(k2) < order.index(k)) if k in order else len(items)
+                    items.insert(min(pos, len(items)), f"{k}={dv}")
+                    given.add(k)
         if items and v[1] in ("DC", "NT", "NTD") and v[2][0][0] in ("a", "f") and r() < fancy:
             # first argument written positionally
             items[0] = hand_render(v[2][0][1], rng, fancy)
